@@ -771,3 +771,6 @@ mod tests {
         assert_eq!(r.get_rx_datarate(DR::_12, 0, &Window::_1), DR::_8);
     }
 }
+
+#[cfg(lora_rs_verif)]
+pub mod verif;
